@@ -3,7 +3,7 @@
  * Input: NFIX arbitrary bytes in an exactly-sized heap object (one query per length).
  *  -DOP=1 validate_utf8 / cleanup_utf8 / cleanup_utf8_buffer: three-way agreement, repair content, repaired text re-validates
  *  -DOP=5 cleanup_utf8_buffer (the allocating wrapper of the repairer)
- *  -DOP=2 a route into ST::string with an explicit mode (-DROUTE=1..8): throws <=> malformed under check_validity, repair under substitute_invalid, verbatim under assume_valid
+ *  -DOP=2 a route into ST::string with an explicit mode (-DROUTE=1..12): throws <=> malformed under check_validity, repair under substitute_invalid, verbatim under assume_valid
  *  -DOP=3 default-argument forms behave as the mode configured with ST_DEFAULT_VALIDATION (shim compiled with -DST_DEFAULT_VALIDATION=...)
  *  -DOP=4 substitute_invalid output always passes check_validity, for the UTF-8 -> UTF-16 -> UTF-8 and UTF-8 -> UTF-32 -> UTF-8 chains */
 #include "vp_harness.h"
@@ -82,6 +82,12 @@ int vp_harness_main(void) {
   vp_ctor_stdstring(&out, in, n, mode);
 #elif ROUTE == 8
   vp_ctor_sv(&out, in, n, mode);
+#elif ROUTE == 10
+  vp_from_std_str8(&out, in, n, mode);
+#elif ROUTE == 11
+  vp_from_std_u8sv(&out, in, n, mode);
+#elif ROUTE == 12
+  vp_ctor_u8ptr(&out, in, n, mode);
 #endif
 #else
 #if ROUTE == 1
